@@ -190,7 +190,13 @@ class Check(core.PropertyCheck):
     def mon_constants(self, tier):
         return {}
 
+    # which of the two documented behaviours of the code the model describes (spec/ServerReplay/ServerReplay.tla)
+    CODE = {"PathParams": "kept", "ReindexOrder": "recording"}
+
     def _consts(self, size):
+        return dict(self._tables(size), **self.CODE)
+
+    def _tables(self, size):
         if size == "small":
             return {"Batches": tuple(tuple(b) for b in BATCH_QUICK), "Reqs": tuple(REQ_QUICK),
                     "OptOps": tuple({"name": n, "val": v} for n, v in OPT_QUICK), "InitOpts": frozenset_of(INIT_QUICK),
